@@ -4,6 +4,7 @@ Multi-part upload as a graph
 
 from __future__ import annotations
 
+from copy import deepcopy
 from functools import partial
 from typing import (
     TYPE_CHECKING,
@@ -445,6 +446,8 @@ def _mpu_append_chunks_op(
 ):
     # expect 1 MPUChunk per partition
     (mpu,) = mpus
+    # it lives in the task graph: leave it untouched so that the graph can be computed again
+    mpu = deepcopy(mpu)
     # more data may follow within this partition: end-of-stream flag only
     # takes effect once the last chunk was appended
     is_final, mpu.is_final = mpu.is_final, False
